@@ -277,6 +277,12 @@ def canonicalise_renamed_functions(raw, vocab_sigs, strip_lt, log=None):
         rivals = [lp2 for lp2, ls2 in lost.items() if parent(lp2) == parent(lp) and ls2 == ls]
         if len(cands) == 1 and len(rivals) == 1:
             ren[cands[0]] = lp
+        elif len(cands) == len(rivals) > 1:
+            # several functions with the same signature renamed together (getters, setters): pair them in source order
+            order_new = [p_ for p_ in new if p_ in cands]
+            order_lost = [p_ for p_ in vocab_sigs if p_ in rivals]
+            for a_, b_ in zip(order_new, order_lost):
+                ren.setdefault(a_, b_)
     if not ren:
         return {}
     # raw paths may carry lifetime arguments (`Type::<'a>::f`): rename by the last segment within the same parent
